@@ -28,6 +28,7 @@ RULE = ("a die WxH (lattice sizes, dyadic and decimal units) with 2-7 modules: s
         "relative (bestof); distinct = distinct case.")
 ASSUMPTIONS = [
     "every module has a centre (the tool's precondition); fixed modules are rectangles inside the die",
+    "the visualize subcheck uses no movable module with rectangles: on the unchanged tree the drawing code re-derives the centre of such a module from its rectangles at every picture, so the option does change their layout (noted, not asserted: the statement does not mention the option)",
     "best-of tolerance: n(n-1) x 1e-5 x Rmax^2 + 1e-9 (1 + |min cost|): two kappas closer than the accuracy of the tool's disc-overlap formula may be ranked either way",
     "the twelve candidate layouts are produced with the real (deterministic) layout function on deep copies; only the cost is recomputed independently",
 ]
@@ -44,6 +45,9 @@ def build(c):
             mods[m["name"]] = {"area": X.num(m["area"] * u * u), "center": [X.num(m["c"][0] * u / 2), X.num(m["c"][1] * u / 2)]}
         elif m["kind"] == "fixed":
             mods[m["name"]] = {"fixed": True, "rectangles": [D.rect_entry(r, unit) for r in m["rects"]]}
+        elif m["kind"] == "hard":
+            # a movable hard block: its centre is the one of its rectangles; the relocation moves the centre only
+            mods[m["name"]] = {"hard": True, "rectangles": [D.rect_entry(r, unit) for r in m["rects"]]}
         else:
             mods[m["name"]] = {"terminal": True, "center": [X.num(m["c"][0] * u / 2), X.num(m["c"][1] * u / 2)]}
     nets = [list(e["m"]) + ([e["w"]] if e["w"] is not None else []) for e in c["nets"]]
@@ -116,7 +120,7 @@ def run_layout(c):
         raise Violation("%s is not deterministic: %s vs %s" % (what, centres(out.netlist), centres(out2.netlist)), "not-deterministic")
     kinds = [m["kind"] for m in c["modules"]]
     moved = sum(1 for (a, b) in zip(cen0, centres(out.netlist)) if a != b)
-    cls = []
+    cls = ["movable-hard-module"] if "hard" in kinds else []
     if moved:
         cls.append("something-moved")
     if len({tuple(m["c"]) for m in c["modules"] if m["kind"] != "fixed"}) < sum(1 for k in kinds if k != "fixed"):
@@ -222,10 +226,15 @@ def design_s(draw, bestof=False):
             pts[i] = [draw(st.sampled_from([0, 2 * W])), draw(st.sampled_from([0, 2 * H]))]  # corner
         elif s == 2:
             pts[i][draw(_i(0, 1))] = 0  # on a border
-        kind = "terminal" if draw(_i(0, 4)) == 0 else "soft"
-        m = dict(name="%s%d" % ("T" if kind == "terminal" else "M", i), kind=kind, c=pts[i])
+        kind = draw(st.sampled_from(["terminal", "soft", "soft", "soft", "hard"]))
+        m = dict(name="%s%d" % ({"terminal": "T", "hard": "H"}.get(kind, "M"), i), kind=kind, c=pts[i])
         if kind == "soft":
             m["area"] = draw(_i(1, max(1, W * H // 2)))
+        if kind == "hard":
+            x0, y0 = draw(_i(0, max(0, W - 2))), draw(_i(0, max(0, H - 2)))
+            m["rects"] = [[x0, y0, x0 + draw(_i(1, 2)), y0 + draw(_i(1, 2))]]
+            if draw(st.booleans()) and m["rects"][0][3] + 1 <= H:
+                m["rects"].append([x0, m["rects"][0][3], x0 + 1, m["rects"][0][3] + 1])
         mods.append(m)
     if draw(st.booleans()):
         mods = draw(st.permutations(mods))
@@ -311,6 +320,9 @@ def visualize_s(draw):
     c["max_iter"] = draw(st.sampled_from([100, 100, 150, 200, 120, 101, 30]))
     # (modules that carry rectangles are fixed in this generator; the drawing code re-derives centres from rectangles)
     c["squares"] = False
+    for m in c["modules"]:
+        if m["kind"] == "hard":
+            m["kind"], m["area"] = "soft", sum((r[2] - r[0]) * (r[3] - r[1]) for r in m.pop("rects"))
     return c
 
 
@@ -323,7 +335,7 @@ def subchecks():
             required=("net-with-3+-distinct-modules",), case_timeout=600,
             desc="the same layout in two child interpreters with different PYTHONHASHSEED values"),
         Sub("layout", run_layout, strategy=design_s(False), n_quick=6000, n_thorough=60000,
-            required=("something-moved", "coincident-centres", "centre-on-border", "terminal", "zero-iterations", "squares-created-before",
+            required=("something-moved", "coincident-centres", "centre-on-border", "terminal", "movable-hard-module", "zero-iterations", "squares-created-before",
                       "shared-point-objects")),
         Sub("bestof", run_bestof, strategy=design_s(True), n_quick=800, n_thorough=8000, shrink_quick=False,
             required=("bestof-spread",)),
